@@ -1075,6 +1075,8 @@ def _do_map(pool, op, opi, o, mk_funcs, S, obs):
                     io_ev.append(('p1', None, round(S.now - S.t0, 6)))
             if consume != 'all':
                 if op.get('abandon') == 'close':
+                    if op.get('pause_before_close'):
+                        sim.time_shim.sleep(op['pause_before_close'])      # things go on in the background while the consumer is away
                     gen.close()
                     o['closed'] = True
                 else:
